@@ -14,6 +14,11 @@ CLAIMED = {
    note="Trusted: Coq kernel, translator (regex ASTs, Unicode tables), extraction, driver, correspondence harness. The idna codec is an oracle table (env) filled from CPython per case; str.lower is the generated full Unicode table (final-sigma rule not modelled). Special hosts (IP literals, localhost) are outside the property and only covered by correspondence.",
    technique="Coq invariant + abstraction proof (antichain trie = minimal covering set) + extracted-model differential correspondence",
    ref="6 C09"),
+ "C08": dict(
+   text="Proof (Coq, closed under the global context): for ANY rule list whose wildcard / exception markers sit on the leftmost label (checked by vm_compute for the regenerated bundled list of ~9,950 rules), the suffix length found by the trie walk equals the publicsuffix.org algorithm (`psl`: exception rule prevails and yields its parent, else longest matching rule with `*` matching exactly one label, no matching rule = no suffix) for every host, with no bound on the number or depth of rules; plus: the two halves of split_suffix re-join to the host, get_domain_name is the suffix plus exactly one label, has_valid_tld reads only the last label. Tie to the code: the extracted model, the extracted `psl` spec and an independent Python transcription of the PSL algorithm are compared with SuffixTrie / ural.tld on every small rule set x every host of depth <= 4 and on hosts derived from the bundled rules (rule, +1/+2 labels, wildcard instantiated, exceptions, proper suffixes; case / trailing dot / URL forms).",
+   note="Trusted: Coq kernel (vm_compute for the bundled side conditions), translator (tld_data.py -> Gen/Psl.v as UTF-8 literals), extraction, driver, harness. The `private` flag is not modelled (no observable effect). idna codec as oracle table. Several simultaneously matching exception rules (absent from any PSL) resolve to the shortest, in spec and code alike.",
+   technique="Coq proof: trie walk = PSL algorithm (induction over rules and labels) + computed side conditions on the regenerated list + differential correspondence",
+   ref="6 C08"),
 }
 
 NOT_YET = {}
